@@ -141,19 +141,18 @@ fn check_e1304_vehicle_reload_time_is_correct(ctx: &ValidationContext) -> Result
     let type_ids = get_invalid_type_ids(
         ctx,
         Box::new(|_, shift, shift_time| {
-            shift
+            // NOTE recharge stations are read the same way as reloads
+            let tws = shift
                 .reloads
-                .as_ref()
-                .map(|reloads| {
-                    let tws = reloads
-                        .iter()
-                        .filter_map(|reload| reload.times.as_ref())
-                        .flat_map(|tws| get_time_windows(tws))
-                        .collect::<Vec<_>>();
+                .iter()
+                .flatten()
+                .map(|reload| &reload.times)
+                .chain(shift.recharges.iter().flat_map(|recharges| recharges.stations.iter()).map(|station| &station.times))
+                .filter_map(|times| times.as_ref())
+                .flat_map(|tws| get_time_windows(tws))
+                .collect::<Vec<_>>();
 
-                    check_shift_time_windows(shift_time, tws, true)
-                })
-                .unwrap_or(true)
+            check_shift_time_windows(shift_time, tws, true)
         }),
     );
 
